@@ -99,3 +99,41 @@ Definition hcfg_ok (c : hcfg) : Prop :=
 
 Definition hop_usize (o : hop) : Prop :=
   match o with HAlloc n | HRealloc _ n => usize n | _ => True end.
+
+(* ---------- the same histories over the memory-level model (Heap.v) ---------- *)
+Definition cstep (c : hcfg) (st : hstate * list blk) (o : hop) : option (hstate * list blk) :=
+  let '(s, live) := st in
+  match o with
+  | HAlloc n =>
+      match hp_alloc c s n with
+      | HOk (s', p) => Some (s', if p =? 0 then live else mkblk p n :: live)
+      | _ => None
+      end
+  | HDealloc i =>
+      match nth_error live i with
+      | None => Some st
+      | Some b => match hp_dealloc s (b_addr b) with
+                  | HOk s' => Some (s', remove_nth i live)
+                  | _ => None
+                  end
+      end
+  | HRealloc i n =>
+      match nth_error live i with
+      | None => Some st
+      | Some b =>
+          match hp_realloc c s (b_addr b) n (b_size b) with
+          | HOk (s', q) =>
+              if n =? 0 then Some (s', remove_nth i live)
+              else if q =? 0 then Some (s', live)
+              else Some (s', mkblk q n :: remove_nth i live)
+          | _ => None
+          end
+      end
+  | HDeallocAll => Some (hp_deallocall s, [])
+  end.
+
+Fixpoint crun (c : hcfg) (st : hstate * list blk) (ops : list hop) : option (hstate * list blk) :=
+  match ops with
+  | [] => Some st
+  | o :: r => match cstep c st o with None => None | Some st' => crun c st' r end
+  end.
